@@ -55,7 +55,7 @@ def check(tr):
             if m == "on_trial_complete":
                 state[e["trial"]] = "completed"
             elif m == "on_trial_error":
-                if state.get(e["trial"]) != "paused":
+                if state.get(e["trial"]) not in ("paused", "stopped"):
                     state[e["trial"]] = "failed"
         elif k == "s.ret" and e["m"] == "on_trial_result":
             if e.get("ret") == "STOP":
